@@ -20,7 +20,7 @@ from .. import soup
 ID = 'C10'
 LEVEL = 'model_checking'
 TECHNIQUE = ('token-soup / damage-edit enumeration x parse modes with a typing-pairing-hand-down invariant on every result, plus all '
-             'placements of 31 trigger phrases at every token boundary of 16 seed descriptions x 11 modes, plus all sequences of up to '
+             'placements of 34 trigger phrases at every token boundary of 16 seed descriptions x 11 modes, plus all sequences of up to '
              '3/4 re-parse operations on parsed descriptions (same invariant after every sequence)')
 LEVEL_TEXT = ('The flag invariants (lists of str paired one-to-one with 2-tuples of str, description flags present on every tract, '
               'flawed iff error flag, error TRS implies error flag) are evaluated on every result of the C03 space; the trigger clause '
@@ -69,6 +69,10 @@ TRIGGERS = {
     'limited\n to the Bakken': ('less_except', ['limit']),
     'from the surface\n down to 100 feet': ('depth', ['surface', 'down']),
     'Less And Except the road': ('less_except', ['less', 'except']),
+    # plural and compound forms of the depth words
+    'the Bakken and Three Forks formations': ('depth', ['formation']),
+    'as to subsurface rights only': ('depth', ['surface']),
+    'all depths and formations': ('depth', ['depth', 'formation']),
 }
 TRIGGER_MODES = ['default', 'sec_within', 'sec_colon_required', 'sec_colon_cautious', 'cfg:TRS_desc', 'cfg:desc_STR', 'cfg:S_desc_TR',
                  'cfg:TR_desc_S', 'cfg:copy_all', 'ocr_scrub', 'clean_qq']
